@@ -157,6 +157,29 @@ reg("C02", sim(
     "DESIGN.md §4 C02"))
 
 
+reg("C03", sim(
+    "fault_enumeration",
+    "wait_for_acknowledgments is called in scenarios with one reliable reader, two reliable readers, a best-effort reader next "
+    "to a reliable one, and with the only unacknowledged reader leaving by reader deletion, participant deletion or lease "
+    "expiry (lease patched to 1 s in flight) while the call is pending. All fate vectors up to the bound over user traffic. "
+    "Soundness is judged at the instant the future resolves: every still-matched reliable reader must hold every sample "
+    "written so far (non-destructive read; ground truth of who is matched is kept by the harness). Completion: within 1.2 s "
+    "of virtual time after healing, within 1 s after reader/participant deletion, within lease + 1.5 s after a silent departure.",
+    f"all choice vectors with ≤ bound (2 quick on the small scenarios, 1 on the departure scenarios; +1 thorough) non-default "
+    f"entries over alphabet {FATES}; distinct = distinct trace hashes",
+    "DESIGN.md §4 C03"))
+
+reg("C04", sim(
+    "fault_enumeration",
+    "Writer durability {VOLATILE, TRANSIENT_LOCAL} x reader {VOLATILE, TRANSIENT_LOCAL} (compatible pairs) x writer history "
+    "{KEEP_ALL, KEEP_LAST 1, KEEP_LAST 2} x 2 instances x reader created {after 3 writes immediately, after 3 writes + 300 ms, "
+    "before any write} x same/other participant, with all fate vectors up to the bound on the catch-up traffic (HEARTBEAT, "
+    "ACKNACK, DATA, GAP). A TL reader must eventually present exactly the last-depth-per-instance early samples plus all later "
+    "ones, once each, and wait_for_historical_data must complete; a VOLATILE reader must never present a sample written "
+    "before it existed.",
+    f"all choice vectors with ≤ 2 (3 thorough) non-default entries over alphabet {FATES}; distinct = distinct trace hashes",
+    "DESIGN.md §4 C04"))
+
 # ---------------------------------------------------------------------------------------------------------
 # E2 histcheck
 # ---------------------------------------------------------------------------------------------------------
